@@ -9,7 +9,7 @@
 EXTENDS CmpAlg, TLC
 CONSTANTS Widths
 VARIABLES la, lb
-Lay == {l \in {<<s, w, f>> : s \in {0, 1}, w \in Widths, f \in 0..5} : l[3] <= l[2]}
+Lay == {l \in {<<s, w, f>> : s \in {0, 1}, w \in Widths, f \in 0..8} : l[3] <= l[2]}
 Init == la \in Lay /\ lb \in Lay
 Next == UNCHANGED <<la, lb>>
 Vals(L) == ZToInt(MinV(L))..ZToInt(MaxV(L))
